@@ -36,6 +36,7 @@ const (
 	KChoose
 	KYield
 	KQuiesce
+	KSettle
 	KTimer
 	KTouch
 	KRand
@@ -44,7 +45,7 @@ const (
 )
 
 var kindNames = [...]string{"none", "start", "lock", "rlock", "unlock", "runlock", "load", "store", "send", "recv", "close",
-	"select", "sleep", "wgadd", "wgwait", "choose", "yield", "quiesce", "timer", "touch", "rand", "maporder", "ctxcancel"}
+	"select", "sleep", "wgadd", "wgwait", "choose", "yield", "quiesce", "settle", "timer", "touch", "rand", "maporder", "ctxcancel"}
 
 func (k Kind) String() string { return kindNames[k] }
 
@@ -193,6 +194,7 @@ type World struct {
 	setup      bool
 	enabledBuf []cand
 	costOne    []bool
+	detSched   bool
 }
 
 // W is the current world; nil outside executions.
@@ -414,6 +416,8 @@ func (w *World) enabled(t *Thread) (bool, int) {
 		return p.wg.n == 0, 0
 	case KQuiesce:
 		return true, 2
+	case KSettle:
+		return true, 3
 	}
 	return true, 0
 }
@@ -459,7 +463,7 @@ func (w *World) pick(me *Thread) (*Thread, *timer, bool) {
 		return nil, nil, true
 	}
 	cands := w.enabledBuf[:0]
-	var quiesce *Thread
+	var quiesce, settle *Thread
 	// class 0: real threads, running first
 	if me != nil && !me.done {
 		if ok, cl := w.enabled(me); ok && cl == 0 {
@@ -489,9 +493,18 @@ func (w *World) pick(me *Thread) (*Thread, *timer, bool) {
 			if quiesce == nil {
 				quiesce = t
 			}
+		case 3:
+			if settle == nil {
+				settle = t
+			}
 		}
 	}
 	nreal := len(cands)
+	if nreal == 0 && settle != nil {
+		// no real thread can run: a settled thread goes first, before any timer
+		w.enabledBuf = append(cands, cand{t: settle, class: 3})
+		return settle, nil, false
+	}
 	for _, tm := range w.timers {
 		if tm.stopped || tm.fired || tm.daemon {
 			continue
@@ -521,7 +534,7 @@ func (w *World) pick(me *Thread) (*Thread, *timer, bool) {
 		return nil, nil, true
 	}
 	idx := 0
-	if n > 1 && !w.setup {
+	if n > 1 && !w.setup && !w.detSched {
 		// cost of alternative i>0
 		costs := w.costOne[:0]
 		for i, c := range cands {
@@ -788,6 +801,24 @@ func Quiesce() {
 	w.event(t, KQuiesce, w.namedObj("\x00quiesce"), true, 0)
 }
 
+// Settle blocks the caller until no other real thread is enabled; pending timers do not count
+// (unlike Quiesce they are left pending). Used by harness threads that play the network: they
+// deliver in-flight messages once everybody else is blocked, and only let timeouts fire when
+// there is nothing left to deliver.
+func Settle() {
+	w := live()
+	if w == nil {
+		return
+	}
+	t := w.cur
+	t.p = pend{kind: KSettle}
+	w.point()
+	for _, o := range w.threads {
+		t.vc = t.vc.join(o.vc)
+	}
+	w.event(t, KSettle, w.namedObj("\x00quiesce"), true, 0)
+}
+
 // BeginSetup starts a deterministic setup phase: until EndSetup the scheduler always takes
 // the default alternative and records no choice points (fixtures such as the engine, the
 // monitor and subscriptions are built along one fixed schedule, so that the explored space
@@ -806,6 +837,15 @@ func EndSetup() {
 	}
 	Quiesce()
 	w.setup = false
+}
+
+// DeterministicSchedule switches thread scheduling to the default order without recording
+// choice points (one thread schedule per execution) while data choices (Choose) keep being
+// enumerated: for properties that quantify over histories and inputs, not over schedules.
+func DeterministicSchedule(on bool) {
+	if w := live(); w != nil {
+		w.detSched = on
+	}
 }
 
 // Touch records an access to a named harness-side object (a shared log) without being a
